@@ -7,14 +7,14 @@ MODE = "corpus"
 EXPLANATION = ("Bounded model checking with fault injection: for every corpus class, serialize runs over valid and single-violation objects with a symbolic entry mode and a writer that raises at its "
                "k-th call (k value-forked over every call index), deserialize runs over all byte strings of length n with both entry modes and a reader that raises at its k-th call. "
                "On every path - returning, SerializationError, ValueError, injected fault - z3 decides mode-after == mode-before.")
-BOUNDS = {"quick": "every class of corpus/core; serialize: strings 0/1, arrays 0/1, every violation site, fault at call k for k = 0..12; deserialize: every byte string of length 0..3, fault at call k = 0..8, decoded counts up to 6",
-          "thorough": "strings/arrays up to 2, k up to 24; deserialize lengths 0..5, k up to 16"}
+BOUNDS = {"quick": "every class of corpus/core plus a VERIF_SEED-chosen sample of 70 structs of the generated pair corpus; serialize: strings 0/1, arrays 0/1, every violation site, fault at call k for k = 0..12; deserialize: every byte string of length 0..3, fault at call k = 0..8, decoded counts up to 6",
+          "thorough": "core corpus plus ALL structs of the generated pair corpus; strings/arrays up to 2, k up to 24; deserialize lengths 0..5, k up to 16"}
 OUTSIDE = "specifications not in the corpus; faults other than an exception raised by a reader/writer method"
 ASSUMPTIONS = ["faults are exceptions raised by public add_*/get_*/next_chunk methods of a reader/writer subclass"]
 
 
 def trees(tier):
-    return [("core", corpus.CORE)]
+    return [("core", corpus.CORE), ("pairs", corpus.pairs(tier, corpus.seed(), 70, False)[0])]
 
 
 def programs(tier):
@@ -35,4 +35,14 @@ def jobs(tier):
             js.append(dict(name=f"deserialize_modes[{c['name']},n={n}]", fn="deserialize_modes", args=[types, c, n, 8 if q else 16, 6 if q else 24], tree="core",
                            collect_models=1, expect=["reader chunked mode is what it was on entry"]))
         js.append(dict(name=f"nested[{c['name']}]", fn="nested_not_chunked", args=[types, c, cfg], tree="core", collect_models=1))
+    _, ptypes, pcls = corpus.pairs(tier, corpus.seed(), 70, False)
+    pcfg = {"lens": [0, 1], "counts": [0, 1]}
+    for c in pcls:
+        t = corpus.closure(ptypes, c["instrs"])
+        sites = count_sites(ptypes, c["instrs"], 2)
+        js.append(dict(name=f"serialize_modes[pairs:{c['name']}]", fn="serialize_modes", args=[t, c, pcfg, sites + 2, 8 if q else 12], tree="pairs",
+                       collect_models=1, expect=["writer sanitisation mode is what it was on entry"]))
+        for n in ((2,) if q else (1, 3)):
+            js.append(dict(name=f"deserialize_modes[pairs:{c['name']},n={n}]", fn="deserialize_modes", args=[t, c, n, 6 if q else 10, 6], tree="pairs",
+                           collect_models=1, expect=["reader chunked mode is what it was on entry"]))
     return js
